@@ -10,6 +10,8 @@ import (
 	"sort"
 	"strings"
 
+	"golang.org/x/tools/go/ssa"
+
 	"verif/gosym/sym"
 )
 
@@ -167,6 +169,29 @@ func registerEnv(ip *Interp) {
 		return &Native{&rvalue{v: i.V, t: i.T}}
 	})
 	ip.allowFn["github.com/octohelm/x/reflect.Indirect"] = true
+	// (reflect.Value).Pointer of a func value: the code pointer - equal for closures
+	// made from the same function literal, distinct otherwise
+	ip.reg("(reflect.Value).Pointer", func(ip *Interp, fr *frame, a []Value) Value {
+		rv := a[0].(*Native).V.(*rvalue)
+		var fn *ssa.Function
+		switch f := rv.v.(type) {
+		case *Closure:
+			fn = f.Fn
+		case *ssa.Function:
+			fn = f
+		default:
+			panic(unsupported(fmt.Sprintf("(reflect.Value).Pointer of %T", rv.v)))
+		}
+		if ip.fnIDs == nil {
+			ip.fnIDs = map[*ssa.Function]uint64{}
+		}
+		id, ok := ip.fnIDs[fn]
+		if !ok {
+			id = 0x400000 + uint64(len(ip.fnIDs))*64
+			ip.fnIDs[fn] = id
+		}
+		return ip.ctx.BV(id, 64)
+	})
 	// reflect.Kind is a plain enumeration; String is exact for concrete kinds.
 	ip.reg("(reflect.Kind).String", func(ip *Interp, fr *frame, a []Value) Value {
 		k := ip.concretize(a[0].(*sym.Term))
